@@ -19,9 +19,9 @@ from fractions import Fraction
 import numpy as np
 
 PROP = 'C13'
-TARGETS = ['T13s', 'T13se', 'T13k', 'T13v']
+TARGETS = ['T13s', 'T13se', 'T13k', 'T13v', 'T13sa']
 LEAN_MODULES = ['HdVerif.Props.C13']
-MODEL_MODULES = ['HdVerif.Model.SRItems']
+MODEL_MODULES = ['HdVerif.Model.SRItems', 'HdVerif.Model.SRItemsArgs']
 NAMESPACE = 'HdVerif.C13'
 DRIVER = 'Drivers/C13.lean'
 RULE = ('one case = one content item tree (depth <= 3) of a value type drawn uniformly from the 15, with generated '
